@@ -22,10 +22,16 @@ pub(crate) fn decompress(data: &[u8], expected_size: usize) -> Result<Vec<u8>> {
     }
 
     // ZlibDecoder can handle both zlib-wrapped and raw deflate data
-    let mut decoder = ZlibDecoder::new(data);
+    // The stream is only followed one byte past the expected size: that is enough to
+    // tell it expands to more, without expanding all of it
+    let mut decoder = ZlibDecoder::new(data).take(expected_size as u64 + 1);
     let mut decompressed = Vec::with_capacity(expected_size);
 
     match decoder.read_to_end(&mut decompressed) {
+        Ok(_) if decompressed.len() > expected_size => Err(decompression_error(
+            "Zlib",
+            format!("Decompressed data exceeds the expected {expected_size} bytes"),
+        )),
         Ok(_) => {
             if decompressed.len() != expected_size {
                 log::debug!(
